@@ -935,14 +935,15 @@ pub fn check(run: &Run) -> Value {
         let (class, detail) = match ab {
             Abnormal::TimedOut { seconds } => ("timeout".to_owned(), format!("no progress for {} s", seconds)),
             Abnormal::Crashed { status, stderr_tail } => {
+                let site = stderr_tail.split("| site ").nth(1).unwrap_or("").trim().to_owned();
                 let class = if stderr_tail.contains("memory allocation of") {
-                    "abort:alloc"
+                    format!("abort:alloc|{}", site)
                 } else if stderr_tail.contains("overflowed its stack") {
-                    "abort:stack"
+                    "abort:stack".to_owned()
                 } else {
-                    "abort:other"
+                    format!("abort:other|{}", site)
                 };
-                (class.to_owned(), format!("wait status {:#x}; stderr: {}", status, stderr_tail.chars().take(200).collect::<String>()))
+                (class, format!("wait status {:#x}; stderr: {}", status, stderr_tail.chars().take(300).collect::<String>()))
             }
         };
         *abnormal_summary.entry(format!("{}|{}", FAMILIES[b.family], class)).or_insert(0) += 1;
